@@ -654,7 +654,8 @@ def run(ctx: Ctx) -> None:
     from .c13 import rule_rewrite_order
     rule_rewrite_order(ctx)   # the normalisation this property relies on (unwrap_nodes expands every wrapper, in order)
     rule_depth_longest(ctx)
-    from .c12 import rule_register_depth_paired
+    from .c12 import rule_register_depth_paired, rule_edge_keys
+    rule_edge_keys(ctx)   # depth and the gate histories are read off the wires: every DAG edit has to keep each wire on its own key
     rule_register_depth_paired(ctx)  # per-register depth needs one depth entry per register
     rule_normalised_receiver(ctx)
     from ..rules import memo as _memo
